@@ -5,16 +5,22 @@
 (* what the "v" field holds):                                              *)
 (*                                                                         *)
 (*   [t |-> "null"]  [t |-> "false"]  [t |-> "true"]                       *)
-(*   [t |-> "num", v |-> 1]              small TLC integer                 *)
-(*   [t |-> "big", v |-> <<"1e400">>]    number outside TLC's integers     *)
+(*   [t |-> "num", n |-> 1]              small TLC integer                 *)
+(*   [t |-> "big", b |-> <<49, 101, ..>>] number outside TLC's integers    *)
 (*                                       (traces only: canonical text as   *)
 (*                                       a sequence of code points)        *)
-(*   [t |-> "str", v |-> <<97, 98>>]     sequence of Unicode code points   *)
+(*   [t |-> "str", s |-> <<97, 98>>]     sequence of Unicode code points   *)
 (*   [t |-> "arr", v |-> <<...>>]        sequence of values                *)
 (*   [t |-> "obj", k |-> <<k1,..>>, v |-> <<v1,..>>]                       *)
 (*                                       keys (code point sequences),      *)
 (*                                       strictly sorted, and their values *)
 (*                                                                         *)
+(* The payload field is named after the type (n, s, b; v for the element   *)
+(* sequences of arrays and objects): TLC compares records field by field   *)
+(* in an order it chooses, so two values of different type must never      *)
+(* share a payload field of different shape (comparing 0 with <<>> is an   *)
+(* evaluation error).  With distinct field names a comparison of values of *)
+(* different type is decided on the field names alone.                     *)
 (* Strings are code point sequences, not TLA+ strings: TLC cannot index or *)
 (* order TLA+ strings and its JSON reader garbles non-ASCII text.  `Chr`   *)
 (* maps printable ASCII code points back to one-character TLA+ strings for *)
@@ -27,8 +33,8 @@ JNull  == [t |-> "null"]
 JFalse == [t |-> "false"]
 JTrue  == [t |-> "true"]
 JBool(b) == IF b THEN JTrue ELSE JFalse
-JNum(n) == [t |-> "num", v |-> n]
-JStr(cps) == [t |-> "str", v |-> cps]
+JNum(x) == [t |-> "num", n |-> x]
+JStr(cps) == [t |-> "str", s |-> cps]
 JArr(s) == [t |-> "arr", v |-> s]
 JObjRaw(ks, vs) == [t |-> "obj", k |-> ks, v |-> vs]
 JEmptyObj == JObjRaw(<<>>, <<>>)
@@ -78,8 +84,8 @@ CmpKeys(a, b) == IF a = <<>> THEN (IF b = <<>> THEN 0 ELSE -1)
 (* null < false < true < numbers < strings < arrays < objects; objects: key sets first, then values *)
 CmpJ(a, b) ==
     IF TypeRank(a) # TypeRank(b) THEN CmpInt(TypeRank(a), TypeRank(b))
-    ELSE CASE a.t = "num" /\ b.t = "num" -> CmpInt(a.v, b.v)
-           [] a.t = "str" -> CmpCps(a.v, b.v)
+    ELSE CASE a.t = "num" /\ b.t = "num" -> CmpInt(a.n, b.n)
+           [] a.t = "str" -> CmpCps(a.s, b.s)
            [] a.t = "arr" -> CmpSeqJ(a.v, b.v)
            [] a.t = "obj" -> LET c == CmpKeys(a.k, b.k) IN IF c # 0 THEN c ELSE CmpSeqJ(a.v, b.v)
            [] OTHER -> 0
@@ -121,9 +127,9 @@ ObjFromPairs(ps) == IF ps = <<>> THEN JEmptyObj
 RECURSIVE WellFormed(_)
 WellFormed(x) ==
     CASE x.t \in {"null", "false", "true"} -> DOMAIN x = {"t"}
-      [] x.t = "num" -> x.v \in Int
+      [] x.t = "num" -> x.n \in Int
       [] x.t = "big" -> TRUE
-      [] x.t = "str" -> \A i \in 1 .. Len(x.v) : x.v[i] \in Nat
+      [] x.t = "str" -> \A i \in 1 .. Len(x.s) : x.s[i] \in Nat
       [] x.t = "arr" -> \A i \in 1 .. Len(x.v) : WellFormed(x.v[i])
       [] x.t = "obj" -> /\ Len(x.k) = Len(x.v)
                         /\ \A i \in 1 .. (Len(x.k) - 1) : CmpCps(x.k[i], x.k[i + 1]) < 0
